@@ -36,7 +36,7 @@ PROBES = ["derived_of_loaded_frame_saved", "derived_after_get_waterfall_saved", 
           "format_fil", "format_h5", "descending", "ascending", "clock_jump", "refsigproc_input", "helpers_checked", "sliced_saved",
           "dedrifted_saved", "sibling_frames_alive", "retimed_after_history", "data_rebound_after_waterfall", "saved_over_existing_file",
           "save_failed_then_frame_used_again", "frame_from_time_selected_waterfall",
-          "helpers_given_waterfall_object"]
+          "helpers_given_waterfall_object", "two_frames_share_one_waterfall_object"]
 
 
 def generate(rng, tier):
@@ -80,6 +80,8 @@ def generate(rng, tier):
         else:
             ops.append({"op": "save", "fr": fr, "fmt": rng.choice(["fil", "fil", "h5", "h5b"]), "overwrite": rng.random() < 0.25,
                         "load_form": rng.choice(["str", "str", "path", "object", "from_waterfall"])})
+            if rng.random() < 0.12:
+                ops[-1]["shared_wf"] = rng.randrange(1, 4)
             if rng.random() < 0.25:
                 ops[-1]["partial"] = rng.randrange(1, 16)
                 # ... and a later op often works on that part (the pool's newest member)
@@ -424,6 +426,26 @@ def execute(sc, ctx):
                 if loaded is not None:
                     pool.append(loaded)
                     hist[id(loaded)] = ["loaded"]
+                if loaded is not None and op.get("shared_wf") and fmt != "h5b":
+                    # ON and OFF built on one and the same blimpy Waterfall object (Frame keeps it by reference), given
+                    # different start times; saved alternately
+                    from blimpy import Waterfall
+                    wfo = Waterfall(path)
+                    on = stg.Frame(waterfall=wfo)
+                    off = stg.Frame(waterfall=wfo)
+                    off.t_start = off.t_start + 110.0
+                    ctx.hit("two_frames_share_one_waterfall_object")
+                    for k, (nm, f2) in enumerate((("on", on), ("off", off), ("on", on))):
+                        ext2 = "fil" if (op["shared_wf"] + k) % 2 else "h5"
+                        p2 = ctx.seams.path("w%d_%d.%s" % (j, k, ext2))
+                        (f2.save_fil if ext2 == "fil" else f2.save_hdf5)(p2)
+                        if judge_roundtrip(ctx, f2, p2, ext2, "sharedwf_" + nm + ("_again" if k == 2 else ""), "str") is None:
+                            break
+                        if ctx.violations and ctx.stop_on_violation:
+                            return
+                    pool.extend([on, off])
+                    hist[id(on)] = ["loaded", "sharedwf"]
+                    hist[id(off)] = ["loaded", "sharedwf", "retimed"]
                 if loaded is not None and op.get("partial") and fr.tchans >= 4 and fmt != "h5b":
                     # one more way a frame is obtained: from a blimpy Waterfall opened on part of the file (a time
                     # selection that does not start at the first integration).  The part is a frame like any other
